@@ -78,7 +78,7 @@ def run(ctx, only_cases=None):
     broken = None
     try:
         pinfo = vlib.coq_properties("C15")
-        vlib.proof_coverage(ctx, pinfo, "make -C coq Properties/C15.vo && coqc Properties/C15.v (Print Assumptions audit)", extra_obligations=4)
+        vlib.proof_coverage(ctx, pinfo, "make -C coq Properties/C15.vo && coqc Properties/C15.v (Print Assumptions audit)", extra_obligations=4)  
     except vlib.Broken as b:
         broken = b
     if only_cases is not None:
@@ -142,12 +142,16 @@ def run(ctx, only_cases=None):
     terms = [case_value(c, o) for c, o in sc]
     # uuid cases: the entropy reads actually made (index or failure) and, per returned id, the read it is made of
     terms += [[9, c["n"], [[d] if d else [] for d in (o.get("draws") or [])], [max(x, 0) for x in (o.get("ids") or []) if x >= 0]] for c, o in uu]
-    sc = sc + uu
+    nf = [(c, o) for c, o in zip(cases, outs) if c["mode"] == "nodefull" and o["prop_ok"]][:: (1 if thorough else 2)]
+    terms += [[8, [[[1 if x == "R" else 0 for x in t["ops"]], list(t["cands"]), [], [[k, s] for k, s in t["log"]]] for t in o["threads"]],
+               list(o["sched"]), list(c["pre"]), list(o["markers"])] for c, o in nf]
+    n_uu = len(uu) + len(nf)
+    sc = sc + uu + nf
     mism = []
     try:
         res = vlib.model_eval("C15", terms)
         mism = [i for i, ok in enumerate(res) if not ok]
-        small = [i for i in range(len(terms)) if len(sc[i][1]["sched"]) < 40][:25] + list(range(len(terms) - len(uu), len(terms)))[:6]
+        small = [i for i in range(len(terms)) if len(sc[i][1]["sched"]) < 40][:25] + list(range(len(terms) - n_uu, len(terms) - len(nf)))[:6] + sorted(range(len(terms) - len(nf), len(terms)), key=lambda i: len(sc[i][1]["sched"]))[:2]
         vm_bad = sorted(small[k] for k in vlib.vm_crosscheck("C15", [terms[i] for i in small]))
         if vm_bad != sorted(i for i in small if not res[i]):
             raise vlib.Broken("extracted runner and vm_compute disagree on the C15 model", str(vm_bad))
@@ -160,7 +164,7 @@ def run(ctx, only_cases=None):
                           "on which the Go-side uniqueness predicate holds", {"case": sc[i][0], "observed": sc[i][1]}, found_input=False)
     nontriv = set()
     stats = {"collisions": 0, "exhausted": 0, "released": 0, "got": 0, "faults_injected": 0}
-    for c, o in sc[:len(sc) - len(uu)]:
+    for c, o in sc[:len(sc) - n_uu]:
         coll = sum(len(t["cands"]) for t in o["threads"]) - sum(1 for t in o["threads"] for k, _ in t["log"] if k == 0)
         stats["collisions"] += coll
         for t in o["threads"]:
@@ -177,7 +181,7 @@ def run(ctx, only_cases=None):
                 "(failed SetNX) and a non-empty prescribed schedule; distinct by (scripts, schedule, pre). Plus concurrent NodeIDAllocator runs.",
         "samples": [{"case": sc[i][0], "observed": {"threads": sc[i][1]["threads"] if len(json.dumps(sc[i][1]["threads"])) < 1500 else "…", "markers": sc[i][1]["markers"]}} for i in (0, 1) if i < len(sc)],
         "model_vs_impl_cases": len(terms), "model_vs_impl_mismatches": len(mism), "impl_property_failures": nfail,
-        "input_distribution": dict(stats, schedules=len(sc) - len(uu), uuid_entropy_fault_cases=len(uu),
+        "input_distribution": dict(stats, schedules=len(sc) - n_uu, uuid_entropy_fault_cases=len(uu), node_allocator_histories_on_model=len(nf),
                                    uuid_failed_reads=sum(sum(1 for d in (o.get("draws") or []) if not d) for _, o in uu),
                                    fallback_cases=sum(1 for c in cases if c["mode"] == "fallback"),
                                    fallback_cases_with_faults=sum(1 for c in cases if c["mode"] == "fallback" and (c.get("fault_exists") or c.get("fault_set"))),
